@@ -1771,6 +1771,57 @@ fn step_inner(ex: &mut Exec, st: &mut L1State, op: &str, toks: &[&str]) -> Optio
                 }
             }
         }
+        // oracle-only (C18): the batch derivation used by publish (`get_node_labels`, parallel when the feature is on) on the
+        // multi-thread runtime: every returned node label is the one `get_node_label` derives for the input it is paired with
+        "o.vrf.batch" if toks.len() == 4 => {
+            use akd::ecvrf::VRFKeyStorage;
+            let cfg = toks[1];
+            let n: usize = toks[2].parse().ok()?;
+            let seed: u64 = toks[3].parse().ok()?;
+            let mut rng = crate::rng::Rng::new(seed ^ 0x7b1d_33c9_a2e4_1f05);
+            let mut inputs: Vec<(AkdLabel, VersionFreshness, u64, AkdValue)> = vec![];
+            for i in 0..n {
+                let len = 1 + rng.below(if i % 7 == 0 { 300 } else { 12 }) as usize;
+                let u = AkdLabel(rng.bytes(len));
+                let v = 1 + rng.below(40);
+                inputs.push((u.clone(), VersionFreshness::Fresh, v, AkdValue(rng.bytes(3))));
+                if v > 1 {
+                    inputs.push((u, VersionFreshness::Stale, v - 1, AkdValue(vec![])));
+                }
+            }
+            let bad: Option<String> = with_cfg!(cfg, TC => st.rt.block_on(async {
+                let vrf = HardCodedAkdVRF {};
+                for round in 0..3 {
+                    let got = match vrf.get_node_labels::<TC>(&inputs).await {
+                        Ok(g) => g,
+                        Err(e) => return Some(format!("round {round}: get_node_labels failed: {e}")),
+                    };
+                    if got.len() != inputs.len() {
+                        return Some(format!("round {round}: {} inputs, {} labels", inputs.len(), got.len()));
+                    }
+                    for ((u, f, v, val), nl) in got.iter() {
+                        let want = vrf.get_node_label::<TC>(u, *f, *v).await.ok()?;
+                        if *nl != want {
+                            return Some(format!("round {round}: for ({}, {:?}, version {v}) the batch returned node label {}, get_node_label gives {}", hex::encode(&u.0), f, show_label(nl), show_label(&want)));
+                        }
+                        if !inputs.iter().any(|(a, b, c, d)| a == u && b == f && c == v && d == val) {
+                            return Some(format!("round {round}: the batch returned an input that was not in it: ({}, {:?}, {v})", hex::encode(&u.0), f));
+                        }
+                    }
+                }
+                None
+            }));
+            match bad {
+                Some(w) => {
+                    ex.fail_tag("C18", "batch-label-not-bound", format!("{:?}: {}", toks, w));
+                    Some("FAIL".into())
+                }
+                None => {
+                    ex.stats.bump(op, "ok");
+                    Some(format!("ok {}", inputs.len()))
+                }
+            }
+        }
         // oracle-only (C18): determinism, agreement of the three ways to derive a node label, verification of the
         // honest proof, rejection of every single-field alteration, key separation
         "o.vrf.check" if toks.len() == 5 => {
